@@ -14,6 +14,7 @@ from bacpypes import object as bobj
 from bacpypes.object import (register_object_type, Object, Property, ReadableProperty, WritableProperty,
                              OptionalProperty)
 from bacpypes.service.object import ReadWritePropertyServices, ReadWritePropertyMultipleServices
+from bacpypes.local.object import CurrentPropertyListMixIn
 from bacpypes.apdu import (ReadPropertyRequest, WritePropertyRequest, ReadPropertyMultipleRequest,
                            ReadAccessSpecification, PropertyReference)
 
@@ -21,7 +22,7 @@ STUBS = ["virtual clock (task._time)", "asyncore.loop -> clock advance", "task._
          "fresh singletons per path"]
 
 VENDOR = 999
-T_SCALARS, T_ARRAY, T_LIST = 300, 301, 302      # proprietary object types
+T_SCALARS, T_ARRAY, T_LIST, T_LISTED = 300, 301, 302, 303      # proprietary object types
 
 ArrayOfUnsigned = ArrayOf(Unsigned)
 ArrayOfCharacterString = ArrayOf(CharacterString)
@@ -62,6 +63,18 @@ class C15Lists(Object):
     ]
 
 
+@register_object_type(vendor_id=VENDOR)
+class C15Listed(CurrentPropertyListMixIn, Object):
+    """an object whose Property_List is computed from the properties it currently has"""
+    objectType = T_LISTED
+    properties = [
+        WritableProperty('presentValue', Unsigned),
+        OptionalProperty('description', CharacterString),
+        OptionalProperty('deviceType', CharacterString),
+        OptionalProperty('profileName', CharacterString),
+    ]
+
+
 class Device(nl.AppStack, ReadWritePropertyServices, ReadWritePropertyMultipleServices):
     pass
 
@@ -80,7 +93,7 @@ SCHEMA = {
     'L': (T_LIST, BASE + [R.PropSpec('memberOf', 'lu', writable=True)]),
 }
 UNKNOWN_OBJECT = 'X'            # (T_SCALARS, 2): same type, an instance the device does not hold
-OBJ_ID = {'S': (T_SCALARS, 1), 'A': (T_ARRAY, 1), 'L': (T_LIST, 1), 'X': (T_SCALARS, 2)}
+OBJ_ID = {'S': (T_SCALARS, 1), 'A': (T_ARRAY, 1), 'L': (T_LIST, 1), 'X': (T_SCALARS, 2), 'P': (T_LISTED, 1)}
 PROPRIETARY = 600               # a property number nobody declares
 
 STRINGS = ['', 'a', 'Zq']
@@ -463,13 +476,15 @@ def check_rpm(d, out, store, specs, via, skip=()):
 
 
 # ---------------------------------------------------------------- drawing requests
-CORE = {'S': ['presentValue', 'description', 'units'], 'A': ['controlGroups'], 'L': ['memberOf']}
+CORE = {'S': ['presentValue', 'units'], 'A': ['controlGroups'], 'L': ['memberOf']}
 
 
 def targets(focus, level):
     """(object key, property) pairs a request may name.
     level -1: the focus object's main properties only; 0: a few properties, an undeclared property, an unknown
     object; 1: every declared property as well; 2: also a proprietary property number and the value-less propertyList"""
+    if level == -2:
+        return [(focus, 'objectIdentifier')]
     if level < 0:
         return [(focus, n) for n in CORE[focus]]
     names = [s.name for s in SCHEMA[focus][1] if s.name not in ('objectIdentifier', 'objectType', 'objectName')]
@@ -496,10 +511,12 @@ def spec_of(okey, pname):
     return None
 
 
-def draw_index(d, i, spec, level):
+def draw_index(d, i, spec, level, reading=False):
     """-> (class, index or None); classes: none / zero / elem (1..5, symbolic) / huge"""
     if spec is not None and spec.is_array:
         classes = ['none', 'zero', 'elem', 'huge']
+    elif level < 0 and reading:
+        classes = ['none']
     elif level >= 1:
         classes = ['none', 'small', 'huge']
     else:
@@ -534,6 +551,10 @@ def draw_scalar(d, i, kind, vhi, tag=''):
     if kind == 'r':
         v = d.pick(REALS, nm)
         return Real(v), v
+    if kind == 'oid':
+        # the object's own identifier, another instance, another object type: the property is read-only anyway
+        v = d.pick([(T_SCALARS, 1), (T_SCALARS, 77), ('analogValue', 1)], nm)
+        return ObjectIdentifier(v), v
     raise AssertionError(kind)
 
 
@@ -543,6 +564,7 @@ WRONG_FOR = {       # datatypes a property of this kind must refuse
     'e': [lambda: Unsigned(1), lambda: CharacterString('normal')],
     'b': [lambda: Unsigned(1), lambda: Enumerated(1)],
     'r': [lambda: Double(1.5), lambda: Unsigned(1)],
+    'oid': [lambda: Unsigned(1)],
 }
 
 
@@ -605,7 +627,7 @@ class Diverged(Exception):
 def step_read(d, i, env, focus, level):
     w, lan, dev, client, objs, store = env
     okey, pname = d.pick(targets(focus, level), 'target%d' % i)
-    icls, idx = draw_index(d, i, spec_of(okey, pname), level)
+    icls, idx = draw_index(d, i, spec_of(okey, pname), level, reading=True)
     before = snapshot(dev)
     out = rp(w, lan, dev, client, okey, pname, idx)
     check_read(d, out, store.read(okey, pname, idx), okey, pname, idx, 'ReadProperty')
@@ -680,7 +702,7 @@ def step_write(d, i, env, focus, level, kinds, vhi, nwrong, follow, prio_mode):
         cur = lib_content(spec, objs[okey].ReadProperty(pname))
         old = store.objs[okey].values[pname]
         if cur is None or len(cur) != content:
-            d.flag(True, "array-length-write-not-applied", want=content, got=None if cur is None else len(cur), **mksig())
+            d.flag(True, "array-length-write-not-applied", want=content, length=None if cur is None else len(cur), **mksig())
             raise Diverged()
         store.objs[okey].values[pname] = list(old[:content]) + list(cur[len(old):])
     else:
@@ -713,9 +735,10 @@ def step_write(d, i, env, focus, level, kinds, vhi, nwrong, follow, prio_mode):
 def step_rpm(d, i, env, focus, level, nrefs):
     w, lan, dev, client, objs, store = env
     tg = targets(focus, level)
-    choices = [(focus, s) for s in SELECTORS] + tg
     if level >= 0:
-        choices.append((UNKNOWN_OBJECT, 'all'))
+        choices = [(focus, s) for s in SELECTORS] + tg + [(UNKNOWN_OBJECT, 'all')]
+    else:
+        choices = [(focus, 'all')] + tg
     refs_by_obj = {}
     order = []
     for k in range(nrefs):
@@ -723,7 +746,7 @@ def step_rpm(d, i, env, focus, level, nrefs):
         if pname in SELECTORS:
             idx = None
         else:
-            icls, idx = draw_index(d, i * 10 + k, spec_of(okey, pname), level)
+            icls, idx = draw_index(d, i * 10 + k, spec_of(okey, pname), level, reading=True)
         if okey not in refs_by_obj:
             refs_by_obj[okey] = []
             order.append(okey)
@@ -778,6 +801,136 @@ def rw_wire(d, focus, ops, kinds=('right',), level=1, vhi=255, nwrong=1, follow=
                 step_rpm(d, i, env, focus, level, nrefs)
     except Diverged:
         pass
+    d.reach()
+
+
+# ================================================================ Property_List (local/object.py)
+def enum_numbers(value_octets):
+    """a sequence of application enumerated tags -> their numbers (None when it is something else)"""
+    try:
+        toks = R.tokenize(value_octets)
+    except (ValueError, IndexError):
+        return None
+    out = []
+    for t in toks:
+        if t.cls != 0 or t.num != 9:
+            return None
+        v = 0
+        for k in range(t.start, t.end):
+            v = v * 256 + value_octets[k]
+        out.append(v)
+    return out
+
+
+def value_of_read_ack(out, otype, inst, pid, idx):
+    """the value octets of a ReadProperty-ACK for exactly that property (None: it is not one)"""
+    if out[0] != 'complex-ack' or out[1] != R.READ_PROPERTY:
+        return None
+    head = R.read_ack_payload(otype, inst, pid, idx, [])
+    pre, post = head[:-1], head[-1:]
+    got = out[2]
+    if len(got) < len(head) or not R.eq_octets(got[:len(pre)], pre) or not R.eq_octets(got[len(got) - 1:], post):
+        return None
+    return got[len(pre):len(got) - 1]
+
+
+@meta(bounds="a device holding one object whose Property_List is computed (CurrentPropertyListMixIn): one required and three "
+             "optional properties, presence of each optional one symbolic; one request: ReadProperty / ReadPropertyMultiple "
+             "of Property_List with index none / 0 / 1..5 symbolic / 2^32-1, ReadPropertyMultiple 'all' / 'required', or a "
+             "WriteProperty to it",
+      outside="properties appearing or disappearing between requests",
+      stubs=STUBS)
+def plist_wire(d, ops):
+    w = World()
+    lan = nl.FaultLAN([], world=w)
+    dev = Device(nl.make_device("dut", 20), lan)
+    kw = dict(objectIdentifier=(T_LISTED, 1), objectName='pl', presentValue=3)
+    present = ['presentValue']
+    for name in ('description', 'deviceType', 'profileName'):
+        if d.bool('has_' + name):
+            kw[name] = 'v'
+            present.append(name)
+    obj = C15Listed(**kw)
+    dev.add_object(obj)
+    client = nl.AppStack(nl.make_device("cli", 10), lan)
+    want = sorted(R.PROP[n] for n in present)       # Object_Name, Object_Type, Object_Identifier, Property_List excluded (12.1.1.4.1)
+    n = len(want)
+    pid = R.PROP['propertyList']
+    op = d.pick(list(ops), 'opcode')
+
+    def whole():
+        v = value_of_read_ack(rp(w, lan, dev, client, 'P', 'propertyList', None), T_LISTED, 1, pid, None)
+        return None if v is None else enum_numbers(v)
+
+    if op == 'W':
+        before = snapshot(dev)
+        req = WritePropertyRequest(objectIdentifier=(T_LISTED, 1), propertyIdentifier='propertyList',
+                                   propertyValue=Any(Enumerated(85)))
+        out = exchange(w, lan, dev, client, req)
+        if not matches_error(out, R.E_READ_ONLY):
+            d.flag(True, "property-list-write-not-denied", got=show(out))
+        if changed_keys(before, snapshot(dev)):
+            d.flag(True, "refused-write-changed-state", target='P.propertyList')
+        d.reach()
+        return
+    if op == 'S':
+        sel = d.pick(['all', 'required', 'optional'], 'selector')
+        out = rpm(w, lan, dev, client, [('P', [(sel, None)])])
+        if out[0] != 'complex-ack':
+            d.flag(True, "rpm-not-answered-with-ack", got=show(out), via='Property_List')
+        else:
+            try:
+                got = R.parse_rpm_ack(out[2])
+                pids = sorted(g[0] for g in got[0][1])
+            except (ValueError, IndexError):
+                pids = None
+            req_ids = [R.PROP['objectIdentifier'], R.PROP['objectName'], R.PROP['objectType'], R.PROP['presentValue']]
+            opt_ids = [x for x in want if x != R.PROP['presentValue']]
+            exp = sorted(req_ids + opt_ids if sel == 'all' else (req_ids if sel == 'required' else opt_ids))
+            if pids is None or not same(pids, exp):
+                d.flag(True, "rpm-selector-result", selector=sel, got=pids, want=exp)     # Property_List itself is not returned (15.7.3.1.2)
+        d.reach()
+        return
+    icls = d.pick(['none', 'zero', 'elem', 'huge'], 'index_class')
+    idx = None if icls == 'none' else 0 if icls == 'zero' else d.int(1, 5, 'index') if icls == 'elem' else HUGE
+    if op == 'R':
+        out = rp(w, lan, dev, client, 'P', 'propertyList', idx)
+        val = value_of_read_ack(out, T_LISTED, 1, pid, idx)
+        err = out if out[0] == 'error' else None
+    else:
+        out = rpm(w, lan, dev, client, [('P', [('propertyList', idx)])])
+        val = err = None
+        if out[0] == 'complex-ack':
+            try:
+                got = R.parse_rpm_ack(out[2])
+                g = got[0][1][0]
+                if len(got) == 1 and len(got[0][1]) == 1 and g[0] == pid and same(g[1], idx):
+                    if g[2] == 'value':
+                        val = g[3]
+                    else:
+                        err = ('error', g[3][0], g[3][1])
+            except (ValueError, IndexError):
+                pass
+    sig = dict(present=present, index=idx, via=op)
+    if idx is None:
+        nums = None if val is None else enum_numbers(val)
+        if nums is None or not same(sorted(nums), want):
+            d.flag(True, "property-list-content", got=nums, want=want, **sig)
+    elif icls == 'zero':
+        if val is None or not R.eq_octets(val, R.app_unsigned(n)):
+            d.flag(True, "array-index-0-not-length", got=val, length=n, **sig)
+    elif icls == 'elem' and idx <= n:
+        all_ = whole()
+        nums = None if val is None else enum_numbers(val)
+        if all_ is None or nums is None or len(nums) != 1 or len(all_) != n:
+            d.flag(True, "array-element-read-fails", got=show(out), **sig)
+        else:
+            for k in range(n):
+                if idx == k + 1 and nums[0] != all_[k]:
+                    d.flag(True, "array-element-read-differs", got=nums[0], want=all_[k], **sig)
+    else:
+        if err is None or not matches_error(err, R.E_BAD_INDEX):
+            d.flag(True, "array-bad-index-not-refused", got=show(out) if val is None else val, length=n, **sig)
     d.reach()
 
 
@@ -1224,24 +1377,56 @@ QUICK_TYPES = ['analogValue', 'binaryOutput', 'multiStateValue', 'channel', 'loa
                'notificationClass', 'device']
 
 
+def _wire(out, label, budget, **params):
+    out.append(Inst(rw_wire, params, budget=budget, path_timeout=120, label=label))
+
+
 def instances(tier):
     q = tier == "quick"
     out = []
-    B = 400 if q else 1500
-    # ---- one request, every target / index class / value kind
-    for focus in ('S', 'A', 'L'):
-        out.append(Inst(rw_wire, dict(focus=focus, ops=['R'], level=1), budget=B))
-        out.append(Inst(rw_wire, dict(focus=focus, ops=['M'], level=1, nrefs=1), budget=B))
-    out.append(Inst(rw_wire, dict(focus='S', ops=['W'], level=1, kinds=['right', 'wrong', 'null'], prio='both'), budget=B))
-    out.append(Inst(rw_wire, dict(focus='A', ops=['W'], level=1, kinds=['right', 'wrong'], prio='sym'), budget=B))
-    out.append(Inst(rw_wire, dict(focus='L', ops=['W'], level=1, kinds=['right', 'wrong', 'null'], prio='sym'), budget=B))
-    out.append(Inst(rw_wire, dict(focus='A', ops=['W'], level=0, kinds=['null'], prio='none'), budget=B))
-    out.append(Inst(rw_wire, dict(focus='S', ops=['W'], level=0, kinds=['multi', 'empty'], prio='none'), budget=B))
-    # ---- two requests: a write (every index class, values of the right datatype) and then a read of any kind
-    out.append(Inst(rw_wire, dict(focus='A', ops=['W', 'R'], level=-1, kinds=['right'], prio='none', follow=0), budget=B))
-    out.append(Inst(rw_wire, dict(focus='A', ops=['W', 'M'], level=-1, kinds=['right'], prio='none', follow=0), budget=B))
-    out.append(Inst(rw_wire, dict(focus='S', ops=['W', 'RM'], level=-1, kinds=['right'], prio='none', follow=0), budget=B))
-    out.append(Inst(rw_wire, dict(focus='L', ops=['W', 'RM'], level=-1, kinds=['right'], prio='none', follow=0), budget=B))
+    RW = ['right', 'wrong']
+    RWN = ['right', 'wrong', 'null']
+    if q:
+        B = 400
+        # ---- one request, every target / index class / value kind
+        for f in ('S', 'A', 'L'):
+            _wire(out, "%s: read" % f, B, focus=f, ops=['R'], level=1)
+            _wire(out, "%s: rpm" % f, B, focus=f, ops=['M'], level=1, nrefs=1)
+        _wire(out, "S: write", B, focus='S', ops=['W'], level=1, kinds=RWN, prio='both')
+        _wire(out, "A: write", B, focus='A', ops=['W'], level=1, kinds=RW, prio='sym')
+        _wire(out, "L: write", B, focus='L', ops=['W'], level=1, kinds=RWN, prio='sym')
+        _wire(out, "A: write null", B, focus='A', ops=['W'], level=0, kinds=['null'], prio='none')
+        _wire(out, "S: write wrong arity", B, focus='S', ops=['W'], level=0, kinds=['multi', 'empty'], prio='none')
+        _wire(out, "S: write objectIdentifier", B, focus='S', ops=['W'], level=-2, kinds=RW, prio='none')
+        # ---- two requests: a write (every index class, values of the right datatype), then a read of any kind
+        _wire(out, "A: write, read", B, focus='A', ops=['W', 'R'], level=-1, kinds=['right'], prio='none', follow=0)
+        _wire(out, "A: write, rpm", B, focus='A', ops=['W', 'M'], level=-1, kinds=['right'], prio='none', follow=0)
+        _wire(out, "S: write, read|rpm", B, focus='S', ops=['W', 'RM'], level=-1, kinds=['right'], prio='none', follow=0)
+        _wire(out, "L: write, read|rpm", B, focus='L', ops=['W', 'RM'], level=-1, kinds=['right'], prio='none', follow=0)
+        out.append(Inst(plist_wire, dict(ops='RMSW'), budget=B))
+    else:
+        B = 3000
+        big = dict(vhi=70000, nwrong=4)
+        for f in ('S', 'A', 'L'):
+            _wire(out, "%s: read" % f, B, focus=f, ops=['R'], level=2, **big)
+            _wire(out, "%s: rpm x2" % f, B, focus=f, ops=['M'], level=1 if f != 'L' else 2, nrefs=2, **big)
+            _wire(out, "%s: write" % f, B, focus=f, ops=['W'], level=2, kinds=RWN if f != 'A' else RW, prio='both', **big)
+        _wire(out, "A: write null", B, focus='A', ops=['W'], level=1, kinds=['null'], prio='both')
+        _wire(out, "S: write wrong arity", B, focus='S', ops=['W'], level=1, kinds=['multi', 'empty'], prio='none')
+        _wire(out, "A: write wrong arity", B, focus='A', ops=['W'], level=0, kinds=['multi', 'empty'], prio='none')
+        _wire(out, "S: write objectIdentifier", B, focus='S', ops=['W'], level=-2, kinds=RW, prio='both')
+        # ---- two requests
+        for f in ('S', 'A', 'L'):
+            _wire(out, "%s: write, read" % f, B, focus=f, ops=['W', 'R'], level=0, kinds=['right'], prio='none', follow=0)
+            _wire(out, "%s: write, rpm" % f, B, focus=f, ops=['W', 'M'], level=0, kinds=['right'], prio='none', follow=0)
+            _wire(out, "%s: write, write" % f, B, focus=f, ops=['W', 'W'], level=-1, kinds=RW, prio='none', follow=1)
+            _wire(out, "%s: read|rpm, any" % f, B, focus=f, ops=['RM', 'RWM'], level=-1, kinds=RW, prio='none', follow=1)
+        # ---- three requests
+        for f in ('S', 'A', 'L'):
+            _wire(out, "%s: write, write, read" % f, B, focus=f, ops=['W', 'W', 'R'], level=-1, kinds=['right'], prio='none', follow=0)
+            _wire(out, "%s: write, read|rpm, write|rpm" % f, B, focus=f, ops=['W', 'RM', 'WM'], level=-1, kinds=['right'],
+                  prio='none', follow=0)
+        out.append(Inst(plist_wire, dict(ops='RMSW'), budget=600))
     # ---- object level
     types = QUICK_TYPES if q else std_types()
     for t in types:
